@@ -97,10 +97,9 @@ def cases(tier, seed):
     for fn in fns:
         for _ in range(npairs):
             sk, kk = rnd.choice("oc"), rnd.choice("oc")
-            percbc = fn in ("cbc", "n_cbc", "drain_cbc", "n", "drain")
-            # zero returns of octet drivers are outside the model in per-octet plumbing
-            ssyms = nozero if (percbc and True) else SYMS
-            ksyms = nozero if percbc else SYMS
+            # drivers that answer 0 ("nothing for the moment") on either side, in every variant
+            ssyms = SYMS
+            ksyms = SYMS
             ssc = rscript(rnd, rnd.choice([0, 0, 1, 2, 3, 5]), ssyms)
             ksc = rscript(rnd, rnd.choice([0, 0, 1, 2, 3, 5]), ksyms)
             slen = rnd.choice([0, 1, 3, 6, 8])
